@@ -5,7 +5,7 @@ spec/ProofChain.tla   symbolic ICS-23: an existence proof is (key, value, recomp
                       Algorithmic layer = the loop of ProofChain::verify_membership as get_verified_balance_impl calls it;
                       property layer = Linked(value, app hash): the account key really maps to the value in the state the
                       header commits to.  Sound: reported as verified => Linked.
-  MC    TLC evaluates Sound and Complete (honest answers verify) over all 34 952 enumerated answers (0..3 ops out of 16
+  MC    TLC evaluates Sound and Complete (honest answers verify) over all 69 904 enumerated answers (0..3 ops out of 16
         honest / relabelled / rewritten / flipped / mistyped ops, 4 returned values, 2 app hashes), for the design the
         property asks for; a second run with AsIsEmptyValue = TRUE reproduces the recorded finding in the model.
   ->B   Gen_ProofChain prints every answer with the demanded verdict; h-grpc builds real IAVL-style and simple-merkle
@@ -24,10 +24,10 @@ ENTRIES = {
                 "ICS-23 existence proofs (key, value, recomputed root, tree format) drawn from an honest world (bank store "
                 "inside the multistore committed by the header's app hash) and a forged one; it mirrors the loop of "
                 "ProofChain::verify_membership and states the property as `reported as verified => the account's bank key "
-                "maps to the returned value in the state committed by the app hash`. TLC checks this over all 34 952 "
+                "maps to the returned value in the state committed by the app hash`. TLC checks this over all 69 904 "
                 "combinations of 0..3 ops (honest, other account's entry, relabelled / rewritten keys, rewritten values, "
                 "flipped proof nodes, swapped / missing / extra ops, wrong or unknown proof type, forged-world proofs), 4 "
-                "returned values (honest, other account's, forged, empty) and 2 app hashes, and emits each with the verdict "
+                "returned values (honest, other account's, forged, empty), 2 app hashes and 2 echoed response keys (the requested one, another account's), and emits each with the verdict "
                 "the property demands. The harness builds, per case, random real stores (IAVL-style bank tree with 2..11 "
                 "records, simple-merkle multistore with up to 16 stores), real ICS-23 leaf/inner ops in the iavl_spec and "
                 "tendermint_spec formats, applies the tampering to the real bytes, serves the answer through an in-process "
@@ -60,7 +60,7 @@ def run(ck):
     # 1. the design the property asks for satisfies it on every enumerated answer
     cfg = ck.cfg_with("MC_ProofChain.cfg", {"AsIsEmptyValue": "FALSE"})
     r = ck.tlc_mc("MC_ProofChain", cfg, tag="mc")
-    if r["distinct_states"] < 30000:
+    if r["distinct_states"] < 60000:
         raise vf.ToolError("vacuity: MC_ProofChain enumerated too few answers")
     # the code as it is: the recorded finding must reproduce in the model
     cfg2 = ck.cfg_with("MC_ProofChain.cfg", {"AsIsEmptyValue": "TRUE"}, name="MC_ProofChain_asis.cfg")
